@@ -496,7 +496,10 @@ def r_tile(ctx):
             nz_ok = bool(others) or not (kk < 0 and c > 0 and c % (-kk) == 0 and c // (-kk) >= 1)
     else:
         nz_ok = False
-    run.check(ua is not None and nz_ok, 'R-TILE', f, 'trim:NZ', A.get('trim_line', line),
+    if ua is None:
+        run.undecided('R-TILE', f, 'trim:NZ', A.get('trim_line', line), 'the trim bound %s is not an affine form' % show(A['trim_bound'])[:60])
+    else:
+      run.check(ua is not None and nz_ok, 'R-TILE', f, 'trim:NZ', A.get('trim_line', line),
               'the trim bound cannot degenerate to [:0]',
               "the segment is trimmed with the slice bound %s, which is 0 for observed_length = %s: `s[:0]` is empty "
               "where everything was meant to be kept, so every candidate loses the prefix before the first error"
@@ -519,7 +522,14 @@ def r_tile(ctx):
          'marker.lo = %s, chunk.lo = %s' % (aff_show(mk_lo), aff_show(chunk_lo))),
         ('T5b:marker.hi=E', mk_hi is not None and aff_eq(mk_hi, Ea), 'marker.hi = %s, not E' % aff_show(mk_hi)),
     ]
+    def pure(*forms):
+        return all(fm is not None and set(fm) <= {E, K_SYM, 1} for fm in forms)
+    needs = {'T1': (trim, chunk_lo), 'T2': (chunk_hi, res_hi), 'T3': (step, res_hi), 'T4': (res_lo, res_hi),
+             'T5a': (mk_lo, chunk_lo), 'T5b': (mk_hi,)}
     for role, ok, why in checks:
+        if not ok and not pure(*needs[role.split(':')[0]]):
+            run.undecided('R-TILE', f, role, line, 'an offset involved is not an affine form of the cursor and k: %s' % why)
+            continue
         run.check(bool(ok), 'R-TILE', f, role, line, role,
                   "repair offsets do not tile: %s (forms: trim=%s chunk=[%s, %s) marker=[%s, %s) resume=[%s, %s) step=%s)"
                   % (why, aff_show(trim), aff_show(chunk_lo), aff_show(chunk_hi), aff_show(mk_lo), aff_show(mk_hi),
@@ -528,7 +538,13 @@ def r_tile(ctx):
     # seed = ALPHA[S % 4] of the resynchronised state
     seed = A['seed']
     ok = seed[2][0] == 'bin' and seed[2][1] == '%' and seed[2][3] == ('c', 4) and seed[2][2] == A['resync_term']
-    run.check(ok, 'R-TILE', f, 'seed=last-letter-of-resume', line, 'the new segment starts with the last letter of the resume k-mer',
+    # the same letter read from the strand: STRAND[resume.hi - 1]
+    if not ok and seed[0] == 'sub' and seed[1] == strand and res_hi is not None:
+        sa_ = affine(seed[2])
+        ok = sa_ is not None and aff_eq(sa_, aff_sub(res_hi, {1: 1}))
+    wit_seed = (seed[2][0] == 'bin' and seed[2][1] in ('%', '//') and not ok) or \
+        (seed[0] == 'sub' and seed[1] == strand and affine(seed[2]) is not None and set(affine(seed[2])) <= {E, K_SYM, 1} and not ok)
+    _tri(run, ok, wit_seed, 'R-TILE', f, 'seed=last-letter-of-resume', line, 'the new segment starts with the last letter of the resume k-mer',
               'the new segment is seeded with %s, not ALPHA[resynchronised state %% 4]' % show(seed)[:120],
               inputs='every strand with a detected error')
     # occur
@@ -652,6 +668,10 @@ def r_occur(ctx, f, A, chunk_lo, Ea):
             # symbol leaving it is at position E-r, whose offset in the chunk is (E - r) - chunk.lo
             want = aff_sub(aff_sub(Ea, {r_sym: 1}), chunk_lo)
         ok = oa is not None and want is not None and aff_eq(oa, want)
+        if not ok and (oa is None or want is None or not set(oa) <= set(want) | {1, K_SYM}):
+            run.undecided('R-TILE', f, 'T5d:occur=(E-r)-chunk.lo', nd.lineno,
+                          'occur_location %s is not an affine form of the recall index and k' % (show(occ)[:60] if occ else None))
+            continue
         run.check(ok, 'R-TILE', f, 'T5d:occur=(E-r)-chunk.lo', nd.lineno,
                   'occur_location(r) = %s' % aff_show(want),
                   'occur_location is %s; the symbol leaving the vertex recalled r steps back sits at offset %s of the chunk'
@@ -661,6 +681,13 @@ def r_occur(ctx, f, A, chunk_lo, Ea):
         okc = seq is not None and seq[0] == 'iter' and seq[1][0] == 'v' and seq[1][1] == A.get('chunk_list')
         okm = prev is not None and any(x[0] == 'iter' and x[1][0] == 'v' and x[1][1] == A.get('marker_list')
                                       for x in walk_term(prev))
+        lists_ = {A.get('chunk_list'), A.get('marker_list')}
+        swapped_ = seq is not None and any(x[0] == 'iter' and x[1][0] == 'v' and x[1][1] == A.get('marker_list') for x in walk_term(seq)) \
+            or prev is not None and any(x[0] == 'iter' and x[1][0] == 'v' and x[1][1] == A.get('chunk_list') for x in walk_term(prev))
+        if not (okc and okm) and not swapped_:
+            run.undecided('R-TILE', f, 'chunk-and-marker-reach-path-matching', nd.lineno,
+                          'how the chunk / marker lists reach path_matching is not recognised')
+            continue
         run.check(okc and okm, 'R-TILE', f, 'chunk-and-marker-reach-path-matching', nd.lineno,
                   'path_matching receives the chunk and the look-back of the same error',
                   'path_matching does not receive the chunk list / marker list built in the error arm (dna_sequence=%s, '
@@ -821,6 +848,15 @@ def r_cand(ctx):
             fresh = not dirty and any(x == strand for x in walk_term(src))
             if dirty:
                 why = 'it is assembled from the shared buffer `%s`, which earlier candidates modify in place' % dirty[0][1]
+        if src is None:
+            dirty = [x for x in walk_term(joined) if x[0] == 'v' and isinstance(x[2], tuple) and
+                     any(f.defs[b].kind == 'mutate' for b in x[2])]
+            if not dirty and any(x == strand for x in walk_term(joined)):
+                fresh = True                # assembled directly from slices of the chunk: nothing shared between candidates
+            elif not dirty:
+                run.undecided('R-CAND', f, '%s:built-from-fresh-copy' % tag, nd.lineno, 'how the candidate string %s is built is not '
+                              'recognised' % show(joined)[:60])
+                continue
         run.check(fresh, 'R-CAND', f, '%s:built-from-fresh-copy' % tag, nd.lineno,
                   'joined from list(chunk) modified only by this candidate\'s edit',
                   "the %s candidate is not built from a fresh copy of the chunk: %s - an accepted earlier candidate leaks "
@@ -863,6 +899,9 @@ def r_cand(ctx):
         if not after:
             continue
         tag = min(after)[1]
+        if lo is None or not set(lo) <= {occ, 1}:
+            run.undecided('R-CAND', f, '%s:tail-start' % tag, nd.lineno, 'the start of the tail walk is not an affine form of occur_location')
+            continue
         run.check(lo is not None and aff_eq(lo, want[tag]) and hi == ('c', None), 'R-CAND', f, '%s:tail-start' % tag, nd.lineno,
                   'tail walk of %s starts at %s' % (tag, aff_show(want[tag])),
                   'the tail walk validating the %s candidate reads dna_sequence[%s:%s]; it must start at %s and run to the end'
@@ -874,10 +913,12 @@ def r_cand(ctx):
     for s in steps:
         if s.state == prev:
             starts.setdefault('from-previous', []).append(s)
-    run.check(len(starts.get('from-previous', [])) >= 2, 'R-CAND', f, 'S,I:first-step-from-previous', f.node.lineno,
-              'substitution and insertion walks take their first step from previous_index',
-              'fewer than two first steps from previous_index: %d' % len(starts.get('from-previous', [])),
-              inputs='every candidate', nontrivial=False)
+    if len(starts.get('from-previous', [])) >= 2:
+        run.ok('R-CAND', f, 'S,I:first-step-from-previous', f.node.lineno,
+               'substitution and insertion walks take their first step from previous_index', nontrivial=False)
+    else:
+        run.undecided('R-CAND', f, 'S,I:first-step-from-previous', f.node.lineno,
+                      'fewer than two first steps from previous_index were recognised: %d' % len(starts.get('from-previous', [])))
 
 
 # ----------------------------------------------------------------------------------------------
@@ -1240,7 +1281,16 @@ def r_recomb(ctx):
         run.undecided('R-RECOMB', f, 'walk-arm:segment-grows-by-symbol-read', head.lineno,
                       'no `segments[-1] += symbol` on the walk arm: the segments are kept in another form')
         return
-    run.check(ok1, 'R-RECOMB', f, 'walk-arm:segment-grows-by-symbol-read', head.lineno,
+    grown = [e_.term for p_, k_ in ctx.body_paths(f, scan) if k_ == 'back' and steps[0].node.id in p_
+             for e_ in walk_path(f, p_)[0] if e_.kind == 'augstore' and e_.extra[0] == 'sub' and e_.extra[2] == ('c', -1)]
+    other_index = any(t_[0] == 'sub' and t_[1] == strand and t_[2] != cursor for t_ in grown) or \
+        any(t_[0] == 'sub' and is_alpha(t_[1]) and t_[2][0] == 'sub' and t_[2][2][0] == 'c' and
+            ctx.kinds.live_set(t_[2][1], f) is not None for t_ in grown)        # a fixed live letter, not the one read
+    if not ok1 and not other_index:
+        run.undecided('R-RECOMB', f, 'walk-arm:segment-grows-by-symbol-read', head.lineno,
+                      'the current segment grows by %s, not recognisably the symbol just read' % [show(t_)[:40] for t_ in grown][:1])
+    else:
+      run.check(ok1, 'R-RECOMB', f, 'walk-arm:segment-grows-by-symbol-read', head.lineno,
               'segments[-1] += strand[cursor]', 'the walk arm does not append exactly the symbol it just followed to the current segment',
               inputs='every strand (a clean strand is not returned unchanged)')
     # (2) recombination
